@@ -169,7 +169,16 @@ def main():
         for name, dt in (("reph", qr.signal_REPH), ("nonr", qr.signal_NONR),
                          ("totl", qr.signal_TOTL)):
             out[name] = numpy.array(resp.get_TwoDSpectrum(dtype=dt).data)
+        # the views are read again in another order (total first, twice):
+        # reading must not change what is stored
+        again = {}
+        for name, dt in (("totl", qr.signal_TOTL), ("reph", qr.signal_REPH),
+                         ("totl2", qr.signal_TOTL), ("nonr", qr.signal_NONR)):
+            again[name] = numpy.array(resp.get_TwoDSpectrum(dtype=dt).data)
+        last_again[0] = again
         return out, pws[str(t2)], agg
+
+    last_again = [None]
 
     def unitv():
         v = rng.randn(3)
@@ -207,6 +216,7 @@ def main():
         with ck.guarded("response", "case%d" % ci, rp, rp):
             with contextlib.redirect_stdout(io.StringIO()):
                 r0, pws, agg = respond(ens, dips, wds, pols, det, cpl, t2)
+                again0 = last_again[0]
             scale = max(numpy.abs(r0["reph"]).max(),
                         numpy.abs(r0["nonr"]).max())
             # prefactor of every generated pathway
@@ -230,6 +240,18 @@ def main():
             if e > 1e-10:
                 ck.violation("total-is-reph-plus-nonr", "response",
                              dict(rp, err=e), rp)
+            ag2 = again0
+            e2 = max(float(numpy.abs(ag2["totl"] - r0["totl"]).max()),
+                     float(numpy.abs(ag2["totl2"] - r0["totl"]).max()),
+                     float(numpy.abs(ag2["reph"] - r0["reph"]).max()),
+                     float(numpy.abs(ag2["nonr"] - r0["nonr"]).max()),
+                     float(numpy.abs(ag2["totl2"] - ag2["reph"] -
+                                     ag2["nonr"]).max())) / scale
+            ck.case("total-is-sum-any-read-order", ci,
+                    sample=dict(case=ci, err=e2))
+            if e2 > 1e-10:
+                ck.violation("total-is-reph-plus-nonr", "response:reread",
+                             dict(rp, err=e2), rp)
             with contextlib.redirect_stdout(io.StringIO()):
                 Q = rot()
                 r1, _, _ = respond(ens, [Q.dot(d) for d in dips], wds, pols,
